@@ -6,7 +6,9 @@ from ..explore_r import Scenario, S, mkcfg, bl, sl, bm
 
 WIT = ["shocked_fundamental_values", "unshocked_fundamental_values", "mistake_order_placed", "orders_unchanged",
        "order_for_other_market_at_trigger_time", "mistake_order_replaces_hft_order", "disabled_shock", "complete_runs"]
-RULE = ("grid of shock placements (target market, session, trigger time, window length, rate sign, enabled) x all executions "
+RULE = ("grid of shock placements (target market, session, trigger time, window length, rate sign, enabled), pairs of shocks "
+        "(overlapping windows, same / different targets and sessions) and shocks next to halt / price-limit rules bound to other "
+        "markets in both listing orders x all executions "
         "within the deviation bound (activation permutations, menu choices of agents that submit to all markets); fundamental "
         "paths compared with the closed form for every market and time, every accepted order compared with what its agent "
         "returned; distinct = outcome digests")
@@ -102,10 +104,44 @@ def both_scenarios():
     return sc
 
 
+def multi_scenarios():
+    sc = {}
+    # two fundamental shocks with overlapping windows (different targets / the same target), both listing orders
+    for ta, tb in (("M0", "M1"), ("M1", "M0"), ("M0", "M0")):
+        for sa, sb in ((0, 0), (1, 1), (0, 1)):
+            name = "two_fshocks:%s@s%d+%s@s%d" % (ta, sa, tb, sb)
+            evs = {"Fa": {"class": "FundamentalPriceShock", "target": ta, "triggerTime": 0 if sa != sb else 1, "priceChangeRate": 0.5, "shockTimeLength": 2},
+                   "Fb": {"class": "FundamentalPriceShock", "target": tb, "triggerTime": 1, "priceChangeRate": -0.25, "shockTimeLength": 2}}
+            se = [[], []]
+            se[sa].append("Fa")
+            se[sb].append("Fb")
+            sc[name] = base(evs, se, dict(fshocks=[
+                dict(target=ta, session=sa, triggerTime=0 if sa != sb else 1, length=2, rate=0.5, enabled=True),
+                dict(target=tb, session=sb, triggerTime=1, length=2, rate=-0.25, enabled=True)]), name)
+    # a rule whose hooks are un-timed and bound to ANOTHER market (or to both), listed before / after the shock;
+    # the rules' thresholds are too wide to ever act
+    for rule, rt in (("TradingHaltRule", ["M1"]), ("TradingHaltRule", ["M0", "M1"]), ("PriceLimitRule", ["M1"])):
+        for order in (("R", "SH"), ("SH", "R")):
+            for kind in ("f", "m"):
+                name = "%sshock+%s:%s:%s-first" % (kind, rule, "+".join(rt), order[0])
+                evs = {"R": {"class": rule, "targetMarkets": rt, "triggerChangeRate": 0.9375}}
+                if rule == "TradingHaltRule":
+                    evs["R"]["haltingTimeLength"] = 1
+                if kind == "f":
+                    evs["SH"] = {"class": "FundamentalPriceShock", "target": "M0", "triggerTime": 1, "priceChangeRate": 0.5, "shockTimeLength": 2}
+                    meta = dict(fshocks=[dict(target="M0", session=1, triggerTime=1, length=2, rate=0.5, enabled=True)])
+                else:
+                    evs["SH"] = {"class": "OrderMistakeShock", "target": "M0", "triggerTime": 1, "priceChangeRate": -0.5, "orderVolume": 5, "orderTimeLength": 2}
+                    meta = dict(mshocks=[dict(target="M0", session=1, triggerTime=1, rate=-0.5, volume=5, lifetime=2, enabled=True)])
+                sc[name] = base(evs, [[], list(order)], meta, name)
+    return sc
+
+
 def scenarios(tier):
     sc = f_scenarios()
     sc.update(m_scenarios())
     sc.update(both_scenarios())
+    sc.update(multi_scenarios())
     return sc
 
 
@@ -118,6 +154,7 @@ def run(tier, seed):
     run_r("C14", tier, seed, f_scenarios(), [acc_C14], 1 if tier == "quick" else 2, on_exc, [], RULE, res=res, label="fundamental_shocks", split=0)
     ms = m_scenarios()
     run_r("C14", tier, seed, ms, [acc_C14], 1 if tier == "quick" else 2, on_exc, [], RULE, res=res, label="order_mistake_shocks", split=0)
+    run_r("C14", tier, seed, multi_scenarios(), [acc_C14], 1 if tier == "quick" else 2, on_exc, [], RULE, res=res, label="several_events", split=0)
     deep = {k: v for k, v in ms.items() if "-t1-r-0.5-ttl1-on" in k and not k.endswith("-hft")}
     deep.update(both_scenarios())
     run_r("C14", tier, seed, deep, [acc_C14], 2 if tier == "quick" else 3, on_exc, WIT, RULE, res=res, label="order_mistake_shocks_deeper")
